@@ -405,6 +405,13 @@ def check_about(o):
         results["rotate_ccw_about_centre(rad)"] = mt.rotate_ccw_about_centre(obj, th, degrees=False)
     if is_shear:
         results["shear_about_centre"] = mt.shear_about_centre(obj, math.degrees(math.atan(lin[0, 1])), math.degrees(math.atan(lin[1, 0])))
+        # the same angles (of either sign) in radians
+        results["shear_about_centre(rad)"] = mt.shear_about_centre(obj, math.atan(lin[0, 1]), math.atan(lin[1, 0]), degrees=False)
+        plain_deg = mt.Affine.init_from_2d_shear(math.degrees(math.atan(lin[0, 1])), math.degrees(math.atan(lin[1, 0])))
+        plain_rad = mt.Affine.init_from_2d_shear(math.atan(lin[0, 1]), math.atan(lin[1, 0]), degrees=False)
+        for nm, pl in (("degrees", plain_deg), ("radians", plain_rad)):
+            if not L.close(pl.h_matrix[:2, :2], lin, 1e-11) or not L.close(pl.h_matrix[:2, 2], np.zeros(2), 0):
+                bad.append(("Affine.init_from_2d_shear (%s) is not the shear with the given angles" % nm, {"got": pl.h_matrix, "want": lin}, None))
     for name, t in results.items():
         if not L.close(t.h_matrix, M, 1e-11):
             bad.append((name + ": matrix differs from centre-fixing conjugation", {"got": t.h_matrix, "want": M}, None))
